@@ -47,10 +47,10 @@ func ids(ns []dag.Node) []string {
 // dagBody is part 1: one graph, one DAG implementation, one construction
 // mode, one map iteration order; every DAG query is compared with the
 // reference algorithms.
-func dagBody(r *explore.Run, rep *report.R, sc, impl string, n, row0 int, allOrders bool, modes, variants int) {
+func dagBody(r *explore.Run, rep *report.R, sc, impl string, n int, fixed []int, allOrders bool, modes, variants int) {
 	vmap.Order = nil
 	defer func() { vmap.Order = nil }()
-	g := chooseRows(r, n, row0)
+	g := chooseRows(r, n, fixed...)
 	variant := 0
 	if impl == "upgrading" && variants > 1 {
 		// 1: every dependency on p0 demands >=v2.0.0 while p0 is v1.0.0, so
@@ -259,7 +259,7 @@ func dagBody(r *explore.Run, rep *report.R, sc, impl string, n, row0 int, allOrd
 	if g.edges() > 0 {
 		nt = report.Hash("dag", impl, g.String(), variant)
 	}
-	rep.Eval(sc, report.Hash("dag", impl, o1, len(implied)), nt)
+	evalCase(rep, sc, report.Hash("dag", impl, o1, len(implied)), nt)
 	if nt != "" && g.edges() >= 3 && len(g.missing()) > 0 && wantSample(rep, fmt.Sprintf("dag/cyc=%v", cyc)) {
 		rep.Sample(map[string]any{"part": "dag", "impl": impl, "graph": g.String(), "map_order": perm, "construction": mode, "cyclic": cyc, "observed": o1, "implied": ids(implied), "choices": append([]int{}, r.Choices...), "scenario": sc})
 	}
